@@ -164,6 +164,48 @@ func (a *vfAgent) dial() (net.Conn, error) {
 	return c, nil
 }
 
+// ---- the client's log stream ------------------------------------------------------------------------------
+
+// vfCaptureLogger keeps what the client would write to its log at the configured debug level (the -logDebugLevel flag).
+type vfCaptureLogger struct {
+	vfNopLogger
+	level int
+	buf   *bytes.Buffer
+}
+
+func (l vfCaptureLogger) Debug(level uint8, v ...interface{}) {
+	if int(level) <= l.level {
+		fmt.Fprint(l.buf, v...)
+		l.buf.WriteByte('\n')
+	}
+}
+func (l vfCaptureLogger) Debugf(level uint8, format string, v ...interface{}) {
+	if int(level) <= l.level {
+		fmt.Fprintf(l.buf, format, v...)
+		l.buf.WriteByte('\n')
+	}
+}
+func (l vfCaptureLogger) Debugln(level uint8, v ...interface{}) {
+	if int(level) <= l.level {
+		fmt.Fprintln(l.buf, v...)
+	}
+}
+func (l vfCaptureLogger) Print(v ...interface{})                 { fmt.Fprint(l.buf, v...); l.buf.WriteByte('\n') }
+func (l vfCaptureLogger) Printf(format string, v ...interface{}) { fmt.Fprintf(l.buf, format, v...); l.buf.WriteByte('\n') }
+func (l vfCaptureLogger) Println(v ...interface{})               { fmt.Fprintln(l.buf, v...) }
+
+// how fmt prints a byte slice with %v / %+v: decimal numbers separated by spaces
+func vfDecimalList(b []byte) string {
+	var sb strings.Builder
+	for i, x := range b {
+		if i > 0 {
+			sb.WriteByte(' ')
+		}
+		fmt.Fprintf(&sb, "%d", x)
+	}
+	return sb.String()
+}
+
 // ---- the client's disk ------------------------------------------------------------------------------
 
 // vfSimDisk passes the client's writes to the real file system, except that the failAt-th write operation finds
@@ -382,6 +424,13 @@ func (w *vfWorld) clientRun(st vfStep) {
 	}
 	vfhook.ClientDisk = disk
 	defer func() { vfhook.ClientDisk = nil }()
+	clog := vfCaptureLogger{level: -1, buf: &bytes.Buffer{}}
+	for _, o := range st.L {
+		if strings.HasPrefix(o, "loglevel:") {
+			fmt.Sscanf(o, "loglevel:%d", &clog.level) // the operator runs the client with -logDebugLevel N
+		}
+	}
+	w.clientLog = clog.buf
 	origIdentity := w.state.HostIdentity
 	defer func() { w.state.HostIdentity = origIdentity }()
 	for i := 0; i < runs; i++ {
@@ -398,7 +447,7 @@ func (w *vfWorld) clientRun(st vfStep) {
 					done <- fmt.Errorf("client exited: %v", p) // logger.Fatal: the client process ends here
 				}
 			}()
-			done <- kmcli.VfSetupCerts(user, home, cfg, client, vfNopLogger{})
+			done <- kmcli.VfSetupCerts(user, home, cfg, client, clog)
 		}()
 		var err error
 		select {
@@ -483,6 +532,22 @@ func (w *vfWorld) clientOracles(st vfStep, user, home string, tr *vfClientTransp
 			}
 		}
 	}
+	if w.clientLog != nil && w.clientLog.Len() > 0 {
+		// "private keys reach only the local SSH agent or files readable solely by the user": not the log stream either
+		logText := w.clientLog.Bytes()
+		for _, k := range privs {
+			for name, needle := range vfPrivateNeedles(k) {
+				how := vfWireContains(logText, needle)
+				if how == "" && bytes.Contains(logText, []byte(vfDecimalList(needle))) {
+					how = "decimal list (fmt %v of a byte slice)"
+				}
+				if how != "" {
+					w.violate("C19", "private-key-in-log", "private-key-in-log:"+name, fmt.Sprintf("the client wrote private key material (%s, %s) to its log", name, how))
+				}
+			}
+		}
+		w.res.Probes["client-log-bytes"] += len(logText)
+	}
 	w.res.Probes["client-wire-bytes"] += len(wire)
 	// (2) the agent holds exactly one certificate per label
 	if w.agentSim.mode == "present" || w.agentSim.mode == "refuse-lifetime" {
@@ -551,7 +616,7 @@ func genClientPlan(r *rand.Rand, tier string) *vfPlan {
 	add(vfStep{Op: "client_run", User: user, A: pick(r, []string{"rsa", "p256", "p384"}),
 		B: pick(r, []string{"present", "present", "absent", "refuse-lifetime", "refuse-all", "list-error"}),
 		C: pick(r, []string{"", "", "", "firstdown", fmt.Sprintf("failat:%d", 1+r.IntN(8))}), N: int64(1 + r.IntN(2)),
-		Target: pick(r, []string{"", "", "foreign"}), L: pick(r, [][]string{nil, nil, {"replica"}, {fmt.Sprintf("diskfull:%d", 1+r.IntN(7))}})})
+		Target: pick(r, []string{"", "", "foreign"}), L: pick(r, [][]string{nil, nil, {"replica"}, {fmt.Sprintf("diskfull:%d", 1+r.IntN(7))}, {fmt.Sprintf("loglevel:%d", pick(r, []int{1, 3, 5, 10}))}})})
 	if chance(r, 0.3) {
 		add(vfStep{Op: "advance", D: pick(r, []string{"31s", "1h"})})
 		add(vfStep{Op: "client_run", User: user, A: pick(r, []string{"rsa", "p256", "p384"}), B: pick(r, []string{"present", "absent", "refuse-all"}), N: 1, Target: pick(r, []string{"", "foreign"})})
